@@ -165,6 +165,57 @@ def run_mux_family(ctx, prop):
                      'C01: elementary PIDs are >= 0x20 and differ from the PMT PID 0x1000 and 0x1FFF; adaptation fields that do not fit with the PES header are compared for payload/header only'])
 
 
+# ------------------------------------------------------------------ demux family
+def flatten_stream(sc):
+    """TLC's Demux.tla export -> the harness's stream scenario (flat unit records, section idents, completion requested)"""
+    units = []
+    for u in sc['units']:
+        t = u['tmpl']
+        f = {'id': u['id'], 'pid': u['pid'], 't': t['t']}
+        if t['t'] == 'pes':
+            f.update(total=t['total'], hl=t['hl'], bounded=t['bounded'])
+        else:
+            f.update(ptr=t['ptr'], trail=t['trail'],
+                     secs=[{'tid': s['tid'], 'slen': s['slen'], 'ident': 100 * u['id'] + j, 'badcrc': not s['crcok']} for j, s in enumerate(t['secs'])])
+        units.append(f)
+    pkts = []
+    for p in sc['pkts']:
+        q = {k: v for k, v in p.items() if k not in ('k',)}
+        q['k'] = '' if p['k'] == 'pl' else p['k']
+        pkts.append(q)
+    return {'units': units, 'pkts': pkts, 'pmtpids': sorted(sc.get('pmtpids', [])), 'complete': True}
+
+
+def demux_scenarios(ctx, cfgs, prefix, sample=None):
+    scs = []
+    for cfg in cfgs:
+        gen = gen_tlc(ctx, 'MC_Demux', cfg)
+        if sample and len(gen) > sample:
+            step = len(gen) / float(sample)
+            gen = [gen[int(i * step)] for i in range(sample)]
+        scs += [flatten_stream(g) for g in gen]
+    return tag_scenarios(scs, prefix, ctx.seed, 'demux')
+
+
+def run_c02(ctx):
+    build_harness(ctx)
+    quick = ctx.tier == 'quick'
+    for cfg in (['Demux_c02_psi.cfg'] if quick else ['Demux_c02_psi.cfg', 'Demux_c02_pes.cfg']):
+        model_check(ctx, 'MC_Demux', cfg)
+    if quick:
+        scs = demux_scenarios(ctx, ['Demux_gen_psi_quick.cfg', 'Demux_gen_pes_quick.cfg'], 'dg', sample=12000)
+    else:
+        scs = demux_scenarios(ctx, ['Demux_gen_psi_deep.cfg', 'Demux_gen_pes_deep.cfg', 'Demux_gen_big.cfg'], 'dg')
+    rnd = harness_gen(ctx, 'demux', 400 if quick else 20000, ctx.seed, 4)
+    return pipeline(
+        ctx, 'Mon_C02', 'demux', scs + rnd,
+        rule='scenario = well-formed transport stream (units with byte layouts + packetisation + interleaving); TLC-generated: one per transition of the '
+             'Demux.tla (generator x demuxer) state graph, completed canonically; random: seeded reference multiplexer harness/streamgen.go '
+             '(1..8 PIDs, bounded/unbounded PES, 1..3 sections, pointer fields, trailing stuffing or exact fit); distinct by hash of units+packets',
+        assumptions=['well-formed per ISO 13818-1 2.4.4: the payload_unit_start packet of a section carries the section\'s first byte; on PAT/PMT PIDs no '
+                     'interior section boundary coincides with a packet boundary (DESIGN.md 7)', 'explicit packet size 188 for the no-read-ahead clause'])
+
+
 # ------------------------------------------------------------------ C18: I/O failures surfaced
 
 def run_c18(ctx):
@@ -186,4 +237,5 @@ PROPS = {
     'C05': lambda ctx: run_mux_family(ctx, 'C05'),
     'C17': lambda ctx: run_mux_family(ctx, 'C17'),
     'C18': run_c18,
+    'C02': run_c02,
 }
